@@ -243,6 +243,18 @@ func (w ACLWorld) Generate(rng *rand.Rand, tier string, runIdx uint64) simkit.Pl
 			midChange()
 			continue
 		}
+		if w.Prop == "C08" && simkit.Chance(rng, 4) {
+			// outage: a token is resolved by the agent while the servers answer; everything rests for longer than
+			// the cache lifetimes; then the servers stop answering and the agent resolves the token again
+			t := secret()
+			p.Steps = append(p.Steps,
+				Step{Op: "advance", Dur: "5m"},
+				Step{Op: "resolve", Text: t, Flag: true},
+				Step{Op: "advance", Dur: simkit.Pick(rng, []string{"20s", "2m", "10m"})},
+				Step{Op: "rpc.fail", N: int64(1 + rng.IntN(6))},
+				Step{Op: "resolve", Text: t, Flag: true})
+			continue
+		}
 		switch simkit.Weighted(rng, []int{30, 36, 12, 6, 16}) {
 		case 0:
 			p.Steps = append(p.Steps, aclWrite())
